@@ -1086,6 +1086,12 @@ func (w *World) specSig(name string) (*specSig, error) {
 	}
 	sig.result = rt
 	if sf.Uninter {
+		for _, k := range sf.Reads {
+			if _, ok := w.heapSort[k]; !ok {
+				return nil, fmt.Errorf("%s:%d: spec %s: unknown heap %s", sf.File, sf.Line, name, k)
+			}
+			sig.heapKeys = append(sig.heapKeys, k)
+		}
 		sig.state = 2
 		return sig, nil
 	}
@@ -1197,6 +1203,17 @@ func (w *World) specDecls(used map[string]bool, reveal map[string]bool) (decls [
 		switch {
 		case sig.sf.Uninter:
 			decls = append(decls, fmt.Sprintf("(declare-fun %s (%s) %s)", sig.name, strings.Join(ss, " "), rs))
+			if rs == SStr && len(bs) > 0 {
+				// whatever string it denotes is a well-formed string
+				var as []*Term
+				for _, b := range bs {
+					as = append(as, Sym(b.Name, b.Sort))
+				}
+				app := App(sig.name, rs, as...)
+				wf := And(Le(IntLit(0), App("s.len", SInt, app)), Le(IntLit(0), App("s.off", SInt, app)),
+					Lt(App("+", SInt, App("s.off", SInt, app), App("s.len", SInt, app)), IntLit(281474976710656)))
+				decls = append(decls, "(assert "+Forall(bs, wf, []*Term{app}).String()+")")
+			}
 		case sig.sf.Rec || (sig.sf.Opaque && true):
 			decls = append(decls, fmt.Sprintf("(declare-fun %s (%s) %s)", sig.name, strings.Join(ss, " "), rs))
 			if sig.sf.Rec || reveal[name] {
